@@ -8,8 +8,9 @@ stored file and the parse is judged by the exact rule of the property:
                           (duplicate tick at each k, every swapped pair of tempo lines);
                           tempo k = 0 while some event (incl. the next tempo event, a note end)
                           is governed by tempo k
-  must not raise        : tempo k = 0 that governs nothing -> parse succeeds, every query governed
-                          by k raises ValueError, every other timestamp is unchanged
+  not judged (may parse): tempo k = 0 that governs nothing; when the parse succeeds every query
+                          governed by k must raise ValueError and every other timestamp must be
+                          unchanged (rejecting such a chart is allowed by the statement)
   always                : timestamp_at_tick(-1) raises ValueError on every parsed chart
   unspecified           : the tick-0 signature moved behind another one (a signature at tick 0
                           exists but is not first in the file): ValueError or success are both
@@ -24,6 +25,7 @@ from typing import Any
 
 from detsim import gen, rng
 from detsim.observe import exc_token, us
+from detsim.runner import Discard
 
 PROP = "C15"
 LEVEL = "fault_enumeration"
@@ -39,6 +41,8 @@ ASSUMPTIONS = [
     "the sync trust rule (five rejection conditions + zero-tempo governing rule) is the harness' "
     "executable reading of the property statement",
     "a tick-0 signature that exists but is not first in the file is treated as unspecified",
+    "the statement only demands rejection; a tree that rejects MORE (e.g. a zero tempo that governs "
+    "nothing, or the well-formed base chart) is never reported: such cases are counted/discarded",
 ]
 
 
@@ -108,7 +112,7 @@ def apply_corruption(doc: dict[str, Any], c: dict[str, Any]) -> tuple[str, str, 
     info: dict[str, Any] = {}
     label = "must-raise"
     if k == "none":
-        return gen.render(d), "must-not-raise", info
+        return gen.render(d), "base", info
     if k == "res0":
         d["meta"] = [[a, ("0" if a == "Resolution" else b)] for a, b in d["meta"]]
         return gen.render(d), label, info
@@ -146,7 +150,7 @@ def apply_corruption(doc: dict[str, Any], c: dict[str, Any]) -> tuple[str, str, 
         tempo_ticks = [t for t, _ in d["tempos"]]
         governed = [t for t in governed_ticks(d) if governing_index(tempo_ticks, t) == kk]
         uses = bool(governed) or kk + 1 < len(tempo_ticks)
-        label = "must-raise" if uses else "must-not-raise"
+        label = "must-raise" if uses else "may-parse"
         info = {"zero_k": kk, "zero_from": tick}
     else:
         raise ValueError(k)
@@ -165,7 +169,8 @@ def execute(plan: dict[str, Any]) -> dict[str, Any]:
     doc = plan["doc"]
     violations: list[dict[str, Any]] = []
     fired: dict[str, int] = {}
-    counters = {"must_raise": 0, "must_not_raise": 0, "unspecified": 0, "queries": 0}
+    counters = {"must_raise": 0, "may_parse": 0, "base": 0, "unspecified": 0, "queries": 0,
+                "may_parse_parsed": 0}
     nontrivial = []
     base_chart = None
     tempo_ticks = [t for t, _ in doc["tempos"]]
@@ -191,12 +196,15 @@ def execute(plan: dict[str, Any]) -> dict[str, Any]:
                 what = "returned"
             elif not isinstance(err, ValueError):
                 what = type(err).__name__
-        elif label == "must-not-raise":
+        elif label == "base":
             if err is not None:
-                what = type(err).__name__
-        else:
+                # the well-formed chart itself is rejected on this tree: nothing to corrupt
+                raise Discard("base-chart-rejected:" + type(err).__name__)
+        elif label == "unspecified":
             if err is not None and not isinstance(err, ValueError):
                 what = type(err).__name__
+        elif err is None:
+            counters["may_parse_parsed"] += 1
         if what is not None:
             got = "returned a chart" if err is None else f"raised {exc_token(err)}"
             violations.append({"sig": f"C15/{kind}/{label}/{what}",
